@@ -48,6 +48,14 @@ def step (st : St) (ws : List String) : St × String :=
     | some [r, addr, owner, osig], some wl =>
       ({ st with regs := alSet r { base := { addr, owner, perms := .writers wl }, ownerSigOk := osig != 0, ops := [] } st.regs }, "ok")
     | _, _ => (st, "bad-op")
+  | ["inject", r, o] =>
+    -- a copy as a malicious peer could serve it: the op enters the set unchecked
+    match r.toNat?, o.toNat? with
+    | some r, some o =>
+      match alGet r st.regs, alGet o st.ops with
+      | some reg, some op => ({ st with regs := alSet r { reg with ops := insertOp reg.ops op } st.regs }, "ok")
+      | _, _ => (st, "bad-op")
+    | _, _ => (st, "bad-op")
   | ["addop", r, o] =>
     match r.toNat?, o.toNat? with
     | some r, some o =>
